@@ -93,7 +93,7 @@ func (e *Enc) encodeTop(fn *ssa.Function, fc *FuncContract, name string) {
 		fr.params = append(fr.params, v)
 	}
 	// receiver of a method is non-nil (callers are checked for that in safe mode)
-	if fn.Signature.Recv() != nil && len(fr.params) > 0 && fr.params[0].S == "Ref" {
+	if fn.Signature.Recv() != nil && len(fr.params) > 0 && fr.params[0].S == "Ref" && !nilSafeMethod(fn) {
 		e.assume(not(eq(fr.params[0].T, "nil")))
 		e.assume(sel(e.get(st, e.allocComp()), fr.params[0].T))
 	}
